@@ -133,8 +133,10 @@ def strat_parts():
     @st.composite
     def windows(draw):
         text = draw(st.text(alphabet=alpha, min_size=4, max_size=40))
+        if draw(st.integers(0, 9)) == 0:
+            text = draw(st.text(alphabet=alpha + "hijklmnopqrstuvwxyz", min_size=150, max_size=300))     # a long text line
         n = draw(st.integers(2, 5))
-        w = draw(st.integers(2, max(2, len(text))))
+        w = draw(st.integers(2, max(2, len(text)))) if len(text) <= 40 else draw(st.integers(40, 90))
         ov = draw(st.integers(0, w - 1))
         parts = []
         start = 0
